@@ -13,7 +13,7 @@ RULE = ("Each run: a random stack (1-3 layers of any type, optionally an Asyncio
         "1000 s sleep, polling with a 50 s interval, callable running) and then shut down from one thread with drawn "
         "wait / cancel_futures while submitters race it; shutdown is repeated. Non-trivial = a pre-emption and work in flight "
         "or a racing submit at shutdown time.")
-ASSUMPTIONS = ["shutdown racing shutdown from two threads is outside the documented contract and not generated",
+ASSUMPTIONS = ["with two threads calling shutdown() at once only 'harmless' and 'base shut down exactly once' are judged (the call that lost the race returns early)",
                "'did not wait out a retry sleep or poll interval' = shutdown(wait=True) took no longer than all callable durations + 1 s (sleeps are 1000 s, intervals 50 s)"]
 MSG = "cannot schedule new futures after shutdown"
 LIB_THREADS = ("RetryExecutor", "PollExecutor", "ThrottleExecutor", "TimeoutExecutor")
@@ -45,7 +45,8 @@ def gen(rng, tier):
             "asyncio_top": rng.random() < 0.1,
             "shutdown_at": rng.choice([0, 0.02, 0.1, 0.3, 0.6]),
             "wait": rng.random() < 0.7, "cancel_futures": rng.choice([None, None, True, False]),
-            "racers": rng.choice([0, 1, 2]), "repeat": rng.choice([1, 2]), "settle": 5.0}
+            "racers": rng.choice([0, 1, 2]), "repeat": rng.choice([1, 2]), "settle": 5.0,
+            "shutters": rng.choice([1, 1, 1, 2])}
     spec["sim"] = runner.draw_sim_cfg(rng, est=500)
     spec["sim"]["horizon_s"] = 500000
     return spec
@@ -97,6 +98,18 @@ def run(spec, env):
     def lib_alive():
         return sorted(t.name for t in sim.threads if t.status != "D" and t.name.startswith(LIB_THREADS + ("spy-worker",)))
 
+    def second_shutter():
+        # a second thread calling shutdown() at the same time: "further shutdown() calls are
+        # harmless" and the base must still be shut down exactly once
+        env.await_("shutdown-begin", 5.0)
+        kw = {}
+        if spec["cancel_futures"] is not None:
+            kw["cancel_futures"] = spec["cancel_futures"]
+        env.rec("shutdown2")
+        ex.shutdown(spec["wait"], **kw)
+        env.rec("shutdown2-ret")
+        env.hit("shutdown2-ret")
+
     def shutter():
         if spec["shutdown_at"]:
             env.sleep(spec["shutdown_at"])
@@ -108,6 +121,10 @@ def run(spec, env):
             env.hit("shutdown-begin")
             ex.shutdown(spec["wait"], **kw)
             env.rec("shutdown-ret", r, lib_alive(), i)
+        if spec.get("shutters", 1) > 1:
+            # the call that lost the race returns early: inner executors are only guaranteed to
+            # be shut down once the winning call has returned too
+            env.await_("shutdown2-ret", 100000.0)
         # afterwards submit must refuse, on every executor of the chain
         for lvl, e in enumerate([ex] + (chain[1:] if True else [])):
             try:
@@ -123,6 +140,8 @@ def run(spec, env):
 
     for k in range(spec["racers"]):
         env.client(racer(k))
+    if spec.get("shutters", 1) > 1:
+        env.client(second_shutter, "client-sd2")
     env.client(shutter, "client-sd")
     env.join_all()
     env.sleep(spec["settle"])
@@ -159,14 +178,14 @@ def check(spec, env):
         if b[5] != bool(spec["wait"]) or tuple(tuple(x) for x in b[6]) != want_kw:
             out.append({"oracle": "propagation", "sig": "base-shutdown-args|%s" % cul,
                         "msg": "stack shut down with wait=%r %r but the base saw wait=%r %r; layers %s" % (spec["wait"], want_kw, b[5], b[6], types)})
-    # joined
-    if spec["wait"]:
+    # joined (with two concurrent shutdown() calls the one that lost the race returns early)
+    if spec["wait"] and spec.get("shutters", 1) == 1:
         alive = srs[0][5]
         if alive:
             out.append({"oracle": "join", "sig": "thread-alive-after-shutdown|%s" % ",".join(sorted(set(a.rstrip("0123456789-_") for a in alive))),
                         "msg": "shutdown(wait=True) returned while worker threads were still alive: %r; layers %s" % (alive, types)})
     # did not wait out a sleep / interval
-    if spec["wait"]:
+    if spec["wait"] and spec.get("shutters", 1) == 1:
         total = sum(s["dur"] * (1 + s["fail"]) for s in spec["subs"].values())
         took = (srs[0][1] - sds[0][1]) / 1e9
         if took > total + 1.0:
@@ -222,7 +241,7 @@ def shrink(spec):
         s = cp()
         s["nsubs"] -= 1
         yield s
-    for k, v in (("racers", 0), ("repeat", 1), ("asyncio_top", False), ("cancel_futures", None), ("shutdown_at", 0)):
+    for k, v in (("racers", 0), ("repeat", 1), ("asyncio_top", False), ("cancel_futures", None), ("shutdown_at", 0), ("shutters", 1)):
         if spec[k] != v:
             s = cp()
             s[k] = v
